@@ -5,7 +5,7 @@ from ..modgen import Layout, render, expected_entries, Item
 from ..genmod import Builder
 
 EXTRA = ["COMMAND", "exe", "${exe}", '"my exe"', "--x", "WORKING_DIRECTORY", "${CMAKE_BINARY_DIR}", "CONFIGURATIONS", "Debug",
-         "MYNAME", "NAME_X", "XNAME", "EXPECTFAILURE", "NOEXPECTFAIL", "COMMAND_EXPAND_LISTS", "-DNAME=1", '"NAME"',
+         "MYNAME", "NAME_X", "XNAME", "EXPECTFAILURE", "NOEXPECTFAIL", "EXPECTFAIL", "PRINT_ERRORS", "COMMAND_EXPAND_LISTS", "-DNAME=1", '"NAME"',
          "[[NAME]]", "a;b", "-DITEMS=a\\;b\\;c", '"C:\\\\tools\\\\run.exe"', "check\\.version", '"say \\"hi\\""', "name_", "expectfail_", "$<TARGET_FILE:t>", '"printf \'%s|%s\'  a   b"', '"tab\there"', "[[two  blanks  inside]]",
          '"  leading and trailing  "', "fail", "expect", "T", "x", "a", "me", "NAM", "ame"]
 CT_EXTRA = ["PRINT_ERRORS", "5", "MYNAME", "EXPECTFAILURE", "XEXPECTFAIL", "${opt}", '"EXPECTFAIL"', "[[EXPECTFAIL]]", "LABEL",
@@ -15,6 +15,8 @@ FRAGMENT_NAMES = ["fail", "expect", "t", "x", "EXPECT", "pectf", "Fail", "e", "i
 
 
 class TBuilder(Builder):
+    same_impl_variable = False
+
     def add_test(self):
         r = self.rng
         uid = self.new_uid()
@@ -55,6 +57,14 @@ class TBuilder(Builder):
         self.name_positions.add(min(pos, 5))
         kind = "ct_add_section" if section else "ct_add_test"
         impl = self.test_impl(depth, nm)
+        if self.same_impl_variable:
+            # CMakeTest's own idiom: ct_add_test(NAME x) function(${CMAKETEST_TEST}) / ct_add_section(NAME y) function(${CMAKETEST_SECTION}):
+            # every implementing definition of the file carries the same (unexpanded) name
+            v_ = "${CMAKETEST_SECTION}" if section else "${CMAKETEST_TEST}"
+            impl.args[0] = v_
+            impl.gt["name"] = v_
+            if impl.endargs:
+                impl.endargs = [v_]
         it = Item(kind, kind, args, uid, doc=self.doc(uid), impl=impl, name=nm, expectfail=ef)
         it.between = self.gap_items()
         return it
@@ -84,8 +94,9 @@ class Prop(BaseProp):
         res = CaseResult()
         b = TBuilder(rng, p_doc=0.5, max_depth=3, max_items=5, compound_generic=False,
                      kinds=["add_test", "add_test", "ct_add_test", "ct_add_test", "function", "plain", "block", "set"],
-                     helpers_in_tests=0.3)
+                     helpers_in_tests=0.3, p_doc_impl=0.15)
         b.same_as_name = 0
+        b.same_impl_variable = rng.random() < 0.25
         b.name_positions = set()
         b.section_names = []
         b.reused_names = 0
